@@ -182,9 +182,17 @@ pub fn run_case(_ctx: &Ctx, case: &Value, tag: usize, rep: &mut Report, mb: &mut
                     let mut rs = vec![];
                     let mut pairs = vec![];
                     let mut ids: Vec<u32> = vec![];
+                    let mut prev: Option<(u32, u32)> = None;
                     for _ in 0..1 + rng.below(3) {
-                        let a = rng.below(n as usize) as u32;
-                        let b = (a + rng.below(40) as u32).min(n - 1);
+                        // random ranges, and the edge shapes of the sweep in negated_token_ranges: a range at id 0,
+                        // a single id or range that starts right after / overlaps the end of the previous one
+                        let (a, b) = match (prev, rng.below(4)) {
+                            (None, 0) => (0, rng.below(2) as u32 * rng.below(5) as u32),
+                            (Some((_, pb)), 0) if pb + 1 < n => { let a = pb + 1; (a, (a + rng.below(2) as u32 * rng.below(4) as u32).min(n - 1)) }
+                            (Some((pa, pb)), 1) if pb + 1 < n => (pa + rng.below((pb - pa + 1) as usize) as u32, pb + 1),
+                            _ => { let a = rng.below(n as usize) as u32; (a, (a + rng.below(40) as u32).min(n - 1)) }
+                        };
+                        prev = Some((a, b));
                         rs.push(if a == b && rng.chance(1, 2) { format!("{a}") } else { format!("{a}-{b}") });
                         pairs.push(format!("{a}:{b}"));
                         ids.extend(a..=b);
